@@ -117,3 +117,22 @@ Check C08_mempool_order_full :
   | _, _ => False
   end.
 Print Assumptions C08_mempool_order_full.
+Check C08_agree_interned :
+  forall valid_key (H : bytes -> bytes) K run sig_ok cpb fl gen_args,
+  (forall x args budget,
+     run (Pair (Atom [x01]) x) args budget = if budget <? 20 then Err CostExceeded else Ok (20, x)) ->
+  (forall p s, (exists c r, forall b, run p s b = (if b <? c then Err CostExceeded else Ok (c, r))) \/
+               (forall b, exists e, run p s b = Err e)) ->
+  (forall l l', Permutation l l' -> sig_ok l = sig_ok l') ->
+  forall spends g program max_cost,
+  Forall (good_spend H) spends ->
+  bf_interned fl = true ->
+  N.of_nat (length spends) <= MAX_SPENDS_PER_BLOCK ->
+  build_generator spends = Some g -> ser g = Some program ->
+  match mempool_path valid_key H K run sig_ok cpb fl spends max_cost,
+        run_block_generator2 valid_key H K run sig_ok cpb fl gen_args program (nlen program) (max_cost + 20) with
+  | Ok m, Ok b => agree_full 20 b m
+  | Err _, Err _ => True
+  | _, _ => False
+  end.
+Print Assumptions C08_agree_interned.
